@@ -319,7 +319,10 @@ class Runner:
             r.wall = time.time() - t0
             text = open(lp, errors="replace").read()
             if why:
-                r.status, r.reason = "undecided", why
+                if unit.kind == "search":
+                    r.status, r.reason = "inconclusive", "time-bounded refutation search found nothing in %ds (not a proof)" % unit.timeout
+                else:
+                    r.status, r.reason = "undecided", why
                 return r
             pk = parse_kani(text)
             r.solver_s = pk["solver_s"]
@@ -359,7 +362,7 @@ class Runner:
             return
         bad_covers = [d for d, s in r.covers.items() if s != "SATISFIED"]
 
-        if unit.kind == "proof":
+        if unit.kind in ("proof", "search"):
             if failed:
                 r.status = "violation"
                 r.reason = "obligation failed: " + "; ".join(sorted(set(c["desc"] for c in failed))[:4])
@@ -667,7 +670,7 @@ def main(argv):
     # ---------------- evidence
     wall = time.time() - t_start
     level_all_p = all(u.level == "P" for u in units) and not a.only
-    obligations = [r for r in results if r.unit.kind in ("proof", "must_panic")]
+    obligations = [r for r in results if r.unit.kind in ("proof", "must_panic") or (r.unit.kind == "search" and r.status == "discharged")]
     n_obl = len(obligations)
     n_dis = len([r for r in obligations if r.status == "discharged"])
     declared_level = getattr(pm, "LEVEL", "other")
@@ -697,6 +700,7 @@ def main(argv):
         functions_under_contract=sorted(set(f for r in results for f in r.unit.fns)),
         source_sha256=sc.sha,
         undecided=[dict(unit=r.unit.name, reason=r.reason) for r in und],
+        time_bounded_refutation_searches=[dict(unit=r.unit.name, obligation=r.unit.claim, budget_s=r.unit.timeout, outcome=r.status) for r in results if r.unit.kind == "search"],
         known_findings=[dict(unit=r.unit.name, id=r.unit.known_finding) for r in known if r.status == "known"],
         partial_run=bool(a.only),
         fatal=fatal,
